@@ -33,7 +33,8 @@ def values():
             st.builds(lambda s: ["str", s], st.one_of(gen.safe_text(0, 3), st.sampled_from(["", "<b>", "a&b"]))),
             st.builds(lambda v: ["num", v], st.one_of(st.integers(-3, 30), st.sampled_from([0, 1.5, -0.0]))),
             st.sampled_from([["none"], ["ellipsis"], ["repr", "<u>r</u>"], ["html", "<i>h</i>"], ["tag", "span"], ["tag", "div"], ["tfy"], ["dep"], ["widget", "<w>1</w>"], ["meta"],
-                             ["repr", ""], ["html", ""], ["widget", ""], ["repr", " "], ["html", "0"], ["tag", "br"], ["num", 0.0]]),
+                             ["repr", ""], ["html", ""], ["widget", ""], ["repr", " "], ["html", "0"], ["tag", "br"], ["num", 0.0],
+                             ["richstr", "hello"], ["richstr", ""], ["richnum", 3.5], ["richnum", 7]]),
             st.builds(lambda a, b: ["list", a, b], st.sampled_from(["list", "tuple", "taglist"]), st.lists(st.sampled_from([["str", "x"], ["num", 2], ["none"], ["tag", "b"], ["html", "<q>"]]), max_size=3)),
         )
     )
@@ -54,7 +55,7 @@ def block(depth):
 
 
 def case_strategy():
-    return st.fixed_dictionaries({"prog": block(3), "default_hook": st.sampled_from([False, False, False, True]), "falsy_hook": st.sampled_from([False, False, True]), "wrapped_hook": st.sampled_from([False, False, True])})
+    return st.fixed_dictionaries({"prog": block(3), "default_hook": st.sampled_from([False, False, False, True]), "falsy_hook": st.sampled_from([False, False, True]), "wrapped_hook": st.sampled_from([False, False, True]), "hook_returns": st.sampled_from([False, False, True])})
 
 
 def build_value(v):
@@ -83,6 +84,10 @@ def build_value(v):
         return h.MetadataNode()
     if k == "widget":
         return _widget_class(True)(v[1])
+    if k == "richstr":
+        return _RichText(v[1])
+    if k == "richnum":
+        return (_RichInt if isinstance(v[1], int) else _RichFloat)(v[1])
     if k == "list":
         items = [build_value(x) for x in v[2]]
         if v[1] == "tuple":
@@ -91,6 +96,23 @@ def build_value(v):
             return h.TagList(*items)
         return items
     raise ValueError(v)
+
+
+class _RichText(str):
+    """a str subclass that renders itself"""
+
+    def _repr_html_(self):
+        return "<em>" + str(self) + "</em>"
+
+
+class _RichInt(int):
+    def _repr_html_(self):
+        return "<b>%d</b>" % int(self)
+
+
+class _RichFloat(float):
+    def _repr_html_(self):
+        return "<b>%.2f</b>" % float(self)
 
 
 def _widget_class(renderable: bool):
@@ -167,8 +189,11 @@ class Interp:
         self.active: list = []  # [{"tag":..., "kids": [...]}]
         self.stats = {"max_depth": 0, "exc_crossed": 0, "blocks": 0, "reentry": 0, "bad": 0, "raised_in_block": 0}
 
+    returns = None
+
     def base(self, v):
         self.base_seen.append(v)
+        return self.returns  # a front end's hook may hand back a display handle
 
     def deliver(self, obj):
         """model of handing obj to the currently installed hook"""
@@ -263,6 +288,7 @@ class Interp:
                             raise
                         finally:
                             self.active.pop()
+                    check(not raised_inside, "an exception raised inside a with-block did not propagate out of the block")
                 finally:
                     check(sys.displayhook is h0, "after the block exits sys.displayhook is not the hook that was installed when it was entered" + (" (exception raised inside)" if raised_inside else ""))
                     self.deliver(tag)
@@ -281,6 +307,8 @@ def body(case, note):
     import io
 
     it = Interp()
+    if case.get("hook_returns"):
+        it.returns = ["display-handle"]
     saved = sys.displayhook
     default = bool(case.get("default_hook"))
     # either a recording hook, or the interpreter's own default hook (which prints repr(value) and binds builtins._)
@@ -290,6 +318,7 @@ def body(case, note):
         class RecordingList(list):
             def __call__(self, v):
                 it.base_seen.append(v)
+                return it.returns
 
         base_hook = RecordingList()
     inner_seen: list = []
@@ -344,6 +373,8 @@ def body(case, note):
         "same-object-again" if s.get("again") else "",
         "decorated-hook" if (not default and case.get("wrapped_hook")) and s["blocks"] else "",
         "void-or-special-block-tag" if s.get("special_block") else "",
+        "hook-returns-a-value" if case.get("hook_returns") and not default and s["exc_crossed"] else "",
+        "self-rendering-str/number-subclass" if "'rich" in repr(case["prog"]) and s["blocks"] else "",
     )
 
 
@@ -354,5 +385,5 @@ RULE = (
 )
 
 CLAUSES = [
-    Clause("programs", body, strategy=case_strategy, quick=600, thorough=10000, shards_quick=4, required=("exception-crossed-block", "reentry", "invalid-display-in-block", "depth>=3", "default-hook", "falsy-hook", "same-object-again", "decorated-hook", "void-or-special-block-tag"), rule="see RULE"),
+    Clause("programs", body, strategy=case_strategy, quick=600, thorough=10000, shards_quick=4, required=("exception-crossed-block", "reentry", "invalid-display-in-block", "depth>=3", "default-hook", "falsy-hook", "same-object-again", "decorated-hook", "void-or-special-block-tag", "hook-returns-a-value", "self-rendering-str/number-subclass"), rule="see RULE"),
 ]
